@@ -129,23 +129,25 @@ def run(ctx):
 
         e3 = pull_items(e2)
         conds = [n.args[0] for n in T.subterms(e3) if fname(n) == "ite"]
+        downwind_when = True        # truth value of the guard on the bins that receive input
         for c in conds:
             if fname(c) in ("lt", "ge") and 0 in c.args:
                 other = c.args[1] if c.args[0] == 0 else c.args[0]
-                if T.equivalent(other, want_c) == T.Verdict.EQUAL and ((fname(c) == "lt" and c.args[0] == 0) or (
-                        fname(c) == "ge" and c.args[1] == 0)):
-                    guard = c
+                if T.equivalent(other, want_c) == T.Verdict.EQUAL:
+                    # 0 < C or C >= 0: input where the condition holds;  C < 0 or 0 >= C: input where it does not
+                    pos_form = (fname(c) == "lt" and c.args[0] == 0) or (fname(c) == "ge" and c.args[1] == 0)
+                    guard, downwind_when = c, pos_form
         if guard is None:
             ctx.bad("R08.1", tag + "[downwind support]", "no guard `cos(theta_d - theta_wind) > 0` (or >= 0) selects the "
                     "bins that receive wind input", fw.loc(), derived=sp.Tuple(*conds[:4]) if conds else "no condition",
                     required=CMP("gt", want_c, 0))
         else:
-            off = T.assume(e3, {guard: False})
+            off = T.assume(e3, {guard: not downwind_when})
             ctx.expect(off == 0, "R08.1", tag + "[downwind support]",
                        "bins without a downwind component (cos(theta_d - theta_wind) <= 0) receive exactly zero",
                        fw.loc(), derived=off, required="0")
         # proportional to E at fixed roughness
-        on = T.assume(e3, {guard: True}) if guard is not None else e3
+        on = T.assume(e3, {guard: downwind_when}) if guard is not None else e3
         doubled = on.xreplace({E_fd: 2 * E_fd})
         rest = on.xreplace({E_fd: sp.Integer(1)})
         linear = doubled == 2 * on and not mentions(rest, E)
